@@ -5,7 +5,8 @@ EXTENDS StreamSync, Json
 VARIABLE gsel
 GInit == /\ gsel \in [1..(NFrames + 1) -> GarbageStrings]
          /\ input = Build(gsel, 1) /\ cur = 1 /\ returned = <<>> /\ status = "run"
+         /\ faults = MaxFaults /\ injected = 0 /\ reported = 0
 GNext == Read /\ UNCHANGED gsel
-GSpec == GInit /\ [][GNext]_<<input, cur, returned, status, gsel>>
+GSpec == GInit /\ [][GNext]_<<vars, gsel>>
 Emit == status # "eof" \/ PrintT(<<"GEN", ToJson([garbage |-> gsel, pred |-> returned])>>)
 =======================================================================
